@@ -140,7 +140,7 @@ ENGINES['etspes'] = {
     'sim_src': ['sim/alloc.c', 'sim/umem_sim.c'],
     'inc_first': ['shim'],
     'repo_src': BUF_SRC + ['lib/upipe-ts/upipe_ts_decaps.c', 'lib/upipe-ts/upipe_ts_pes_decaps.c',
-                           'lib/upipe-ts/upipe_ts_pes_encaps.c', 'lib/upipe-ts/upipe_ts_encaps.c'],
+                           'lib/upipe-ts/upipe_ts_pes_encaps.c', 'lib/upipe-ts/upipe_ts_encaps.c', 'lib/upipe-ts/upipe_ts_split.c'],
     'track_alloc': True,
     'real': ['lib/upipe-ts/upipe_ts_decaps.c', 'lib/upipe-ts/upipe_ts_pes_decaps.c', 'include/upipe/ubuf_block.h',
              'include/upipe/uref_clock.h', 'include/upipe/upipe_helper_output.h', 'lib/upipe/ubuf_block_mem.c', 'lib/upipe/uref_std.c',
@@ -308,14 +308,14 @@ PROPS['C15'] = {
              'ts_decaps -> pes_decaps into a recording sink. Two further scenarios put the real encapsulation in front: (a) the units go through pes_encaps (stream id, minimum header size, PTS / DTS from 27 MHz dates with sub-90 kHz remainders) and the reference TS packetiser; (b) the harness plays the mux and pulls packet after packet out of ts_encaps along the simulated mux clock (PES alignment on/off, PCR interval, octet rate, mux step, continuity counter start), every packet and PES header is checked by a reference parser, then the sequence goes through the same channel and decapsulation. Loss bursts of 15 and 16 packets. Distinct = distinct plan hash.'),
     'assumptions': ['one simulated thread; nondeterminism = what the channel does to the packet sequence, how packets are segmented in memory, when the application lets go, allocator failures',
                     'round trip through ts_encaps is compared unit by unit with PES alignment; without alignment (units overlap PES packets) only the elementary stream as a whole and the well-formedness of every packet and PES header are decided',
-                    'ts_encaps is driven without allocation failures (its error paths leave a half-detached buffer behind; out of scope of C15); upipe_ts_split.c and upipe_ts_pid_filter.c are not driven',
+                    'ts_encaps is driven without allocation failures (its error paths leave a half-detached buffer behind; out of scope of C15); upipe_ts_pid_filter.c is not driven; upipe_ts_split.c sits in front of the decapsulation in half of the runs (one or two outputs, packets of another PID or null packets mixed in)',
                     'a gap of exactly 16 packets is invisible in a 4-bit counter: no flag is demanded then',
                     'bitstream/mpeg/ts.h and pes.h are hand-written stand-ins; the packets fed are produced by an independent reference packetiser in the harness, so a layout error in the stand-ins shows as a mismatch',
                     'with corrupt packets only memory safety (ASan, umem red zones), termination, leak freedom and "no more octets out than payload octets in" are decided',
                     'a gap must be flagged on the next buffer that reaches the sink; the first buffer ever delivered may or may not be flagged',
                     'after an injected allocation failure only lifecycle and leak oracles stay armed'],
     'technique': 'deterministic simulation with fault injection: generated access units go through a reference PES/TS packetiser, or through the real pes_encaps, or through the real ts_encaps pulled by a simulated mux clock, then through a simulated channel (duplicates, adaptation-only packets, lost runs, corrupt octets, segmented buffers, allocation failures, release in mid-stream) into the real ts_decaps and pes_decaps; reference parser for every emitted packet and PES header; recovered units, timestamps, markers and discontinuity flags compared with what was carried; minimised replay files',
-    'level_note': 'sampling, not enumeration; ts_split / pid_filter not driven, ts_encaps without allocation faults; trusted base = sim/*, the packetiser and parsers in harness/ets_pes.c, shim/bitstream/mpeg/{ts,pes}.h',
+    'level_note': 'sampling, not enumeration; pid_filter not driven, ts_encaps without allocation faults; trusted base = sim/*, the packetiser and parsers in harness/ets_pes.c, shim/bitstream/mpeg/{ts,pes}.h',
     'design_ref': 'DESIGN.md section 5, C15',
 }
 
